@@ -12,7 +12,11 @@ import (
 	"golang.org/x/tools/go/ssa"
 )
 
+// SeqV models an iter.Seq produced by maps.Keys/maps.Values.
+type SeqV struct{ vals []Value }
+
 var (
+	shaHasherT = types.NewPointer(types.NewNamed(types.NewTypeName(0, nil, "sha256Hasher", nil), types.NewStruct(nil, nil), nil))
 	ctxTokT   = types.NewPointer(types.NewNamed(types.NewTypeName(0, nil, "opaqueContext", nil), types.NewStruct(nil, nil), nil))
 	rtypeTokT = types.NewPointer(types.NewNamed(types.NewTypeName(0, nil, "reflectTypeToken", nil), types.NewStruct(nil, nil), nil))
 )
@@ -51,6 +55,10 @@ func init() {
 			return pending{}
 		},
 		"(*sync.Pool).Put": noop,
+		"crypto/sha256.New": func(e *Engine, st *State, args []Value) Value {
+			id := st.alloc(ArrayV{}, nil)
+			return IfaceV{typ: shaHasherT, v: PtrV{obj: id}}
+		},
 		"(*strings.Builder).Write": func(e *Engine, st *State, args []Value) Value {
 			n := sbAppend(e, st, args[0].(PtrV), e.sliceElems(st, args[1].(SliceV)))
 			return TupleV{[]Value{e.ts.BV(uint64(n), 64), IfaceV{}}}
@@ -172,6 +180,59 @@ func sbAppend(e *Engine, st *State, p PtrV, add []Value) int {
 // findModelGeneric handles instantiated generic functions by name prefix.
 func (e *Engine) findModelGeneric(fn *ssa.Function) modelFn {
 	name := fn.String()
+	if strings.HasPrefix(name, "maps.Keys[") || strings.HasPrefix(name, "maps.Values[") {
+		isKeys := strings.HasPrefix(name, "maps.Keys[")
+		return func(e *Engine, st *State, args []Value) Value {
+			mo := e.mapObj(st, args[0].(MapV))
+			e.modelsUsed["maps.Keys/Values = sequence of the map's entries (iteration order: insertion order)"] = true
+			if isKeys {
+				return SeqV{append([]Value(nil), mo.keys...)}
+			}
+			return SeqV{append([]Value(nil), mo.vals...)}
+		}
+	}
+	if strings.HasPrefix(name, "slices.Sorted[") || strings.HasPrefix(name, "slices.Collect[") {
+		sorted := strings.HasPrefix(name, "slices.Sorted[")
+		targs := fn.TypeArgs()
+		return func(e *Engine, st *State, args []Value) Value {
+			seq, ok := args[0].(SeqV)
+			if !ok {
+				panic(unsupported("slices.Sorted/Collect over a general iterator function"))
+			}
+			el := append([]Value(nil), seq.vals...)
+			var et types.Type = types.Typ[types.Int]
+			if len(targs) > 0 {
+				et = targs[len(targs)-1]
+				if len(targs) == 1 {
+					et = targs[0]
+				}
+			}
+			if sorted {
+				_, signed, isInt := intWidth(et)
+				if !isInt {
+					panic(unsupported("slices.Sorted of non-integer elements"))
+				}
+				// compare-exchange network (bubble): works for symbolic elements
+				for i := 0; i < len(el); i++ {
+					for j := 0; j+1 < len(el)-i; j++ {
+						a, b := el[j].(*Term), el[j+1].(*Term)
+						var lt *Term
+						if signed {
+							lt = e.ts.Bin(OpSLe, a, b)
+						} else {
+							lt = e.ts.Bin(OpULe, a, b)
+						}
+						el[j], el[j+1] = e.ts.Ite(lt, a, b), e.ts.Ite(lt, b, a)
+					}
+				}
+				e.modelsUsed["slices.Sorted = compare-exchange network"] = true
+			}
+			if len(el) == 0 {
+				return SliceV{}
+			}
+			return e.newSlice(st, el, len(el), et)
+		}
+	}
 	if strings.HasPrefix(name, "reflect.TypeFor[") {
 		targs := fn.TypeArgs()
 		if len(targs) == 1 {
@@ -182,6 +243,38 @@ func (e *Engine) findModelGeneric(fn *ssa.Function) modelFn {
 		}
 	}
 	return nil
+}
+
+// shaMethod implements hash.Hash on the modelled SHA-256 state (accumulated input bytes).
+func (e *Engine) shaMethod(st *State, recv IfaceV, method string, args []Value) (Value, bool) {
+	p := recv.v.(PtrV)
+	acc := st.heap[p.obj].(ArrayV)
+	switch method {
+	case "Write":
+		add := e.sliceElems(st, args[0].(SliceV))
+		st.heap[p.obj] = ArrayV{append(append([]Value(nil), acc.e...), add...)}
+		return TupleV{[]Value{e.ts.BV(uint64(len(add)), 64), IfaceV{}}}, true
+	case "Sum":
+		in := make([]*Term, len(acc.e))
+		for i, x := range acc.e {
+			in[i] = x.(*Term)
+		}
+		out := e.shaOf(st, in)
+		ov := make([]Value, 32)
+		for i := range ov {
+			ov[i] = out[i]
+		}
+		b := args[0].(SliceV)
+		return e.appendElems(st, b, ov, types.Typ[types.Uint8]), true
+	case "Reset":
+		st.heap[p.obj] = ArrayV{}
+		return nil, true
+	case "Size":
+		return e.ts.BV(32, 64), true
+	case "BlockSize":
+		return e.ts.BV(64, 64), true
+	}
+	return nil, false
 }
 
 func (e *Engine) ctxMethod(st *State, method string) (Value, bool) {
